@@ -54,6 +54,28 @@ fn targets(tier: Tier) -> Vec<Target> {
         assert!(e.bad.is_none() && e.expect.len() == 8193);
         t.push(dec("lzma_decompress: non-overlapping matches ending exactly at the 4096 and 8192 window boundaries", Fmt::Lzma, enc::lzma_file(3, 0, 2, 4096, Some(8193), &e.payload), true));
     }
+    // ---- the other ways of telling the decoder the size (the header is parsed differently for each)
+    {
+        use crate::cases::SizeOpt;
+        let prog = [Sym::L(0x68), Sym::L(0x65), Sym::L(0x6C), Sym::M(1, 4), Sym::S];
+        let em = enc::encode(3, 0, 2, u64::MAX, &[&prog[..], &[Sym::E]].concat());
+        let es = enc::encode(3, 0, 2, u64::MAX, &prog);
+        let n = es.expect.len() as u64;
+        let mut mk = |label: &str, size: SizeOpt, input: Vec<u8>| {
+            t.push(Target { label: label.to_string(), base: Case::Dec { fmt: Fmt::Lzma, opts: Opts { size, ..Opts::default() }, input: Hex(input), rd: inert.clone(), sk: Sk::default() }, must_flush: true });
+        };
+        mk("lzma_decompress ReadHeaderButUseProvided(Some(n)), header field wrong", SizeOpt::HeaderProvided(Some(n)), enc::lzma_file(3, 0, 2, 4096, Some(3), &es.payload));
+        mk("lzma_decompress ReadHeaderButUseProvided(None) + marker, header field set", SizeOpt::HeaderProvided(None), enc::lzma_file(3, 0, 2, 4096, Some(n), &em.payload));
+        mk("lzma_decompress ReadHeaderButUseProvided(Some(0)), empty payload", SizeOpt::HeaderProvided(Some(0)), enc::lzma_file(3, 0, 2, 4096, Some(9), &enc::encode(3, 0, 2, u64::MAX, &[]).payload));
+        let mut short = enc::lzma_header(3, 0, 2, 4096, None);
+        short.truncate(5);
+        let mut a = short.clone();
+        a.extend_from_slice(&es.payload);
+        mk("lzma_decompress UseProvided(Some(n)), 5-byte header", SizeOpt::Provided(Some(n)), a);
+        let mut b = short.clone();
+        b.extend_from_slice(&em.payload);
+        mk("lzma_decompress UseProvided(None) + marker, 5-byte header", SizeOpt::Provided(None), b);
+    }
     // ---- LZMA2
     let blob: Vec<u8> = (0..66000u32).map(|i| (i.wrapping_mul(2654435761) >> 24) as u8).collect();
     let w = lzma2::write(&[
@@ -64,6 +86,19 @@ fn targets(tier: Tier) -> Vec<Target> {
     ]);
     assert!(w.ill.is_none());
     t.push(dec("lzma2_decompress multi-chunk > 64 KiB with mid-stream dictionary reset", Fmt::Lzma2, w.bytes.clone(), true));
+    {
+        // more than 128 KiB in one dictionary, then a chunk that resets the dictionary, then more data
+        let big2: Vec<u8> = (0..140000u32).map(|i| (i.wrapping_mul(2246822519) >> 23) as u8).collect();
+        let w = lzma2::write(&[
+            Chunk::U { reset: true, data: big2[..65536].to_vec() },
+            Chunk::U { reset: false, data: big2[65536..131072].to_vec() },
+            Chunk::U { reset: false, data: big2[131072..].to_vec() },
+            Chunk::C { class: 3, props: (3, 0, 2), prog: vec![Sym::L(1), Sym::L(2), Sym::M(2, 200), Sym::L(3), Sym::M(1, 100)] },
+            Chunk::U { reset: false, data: b"tail".to_vec() },
+        ]);
+        assert!(w.ill.is_none());
+        t.push(dec("lzma2_decompress 140000 bytes in one dictionary, then a dictionary reset", Fmt::Lzma2, w.bytes.clone(), true));
+    }
     t.push(dec("lzma2_decompress single 1-byte chunk", Fmt::Lzma2, vec![1, 0, 0, 0x42, 0], true));
     t.push(dec("lzma2_decompress empty stream", Fmt::Lzma2, vec![0], true));
     // ---- XZ
